@@ -180,12 +180,7 @@ Theorem obj_load_save_load_files : forall file fs defs, valid file = true -> loa
     map gfaces (map obs gs1) = map gfaces (file_groups file) /\
     map gfaces (map obs gs2) = map gfaces (file_groups file) /\
     map obs gs2 = map gobs_written (map (gobs_resolved defs) (file_groups file)).
-Proof.
-  intros file fs defs V D. destruct (load_save_load file fs defs V D) as (gs1 & ls & gs2 & L1 & O1 & S & L2 & O2).
-  exists gs1, ls, gs2. repeat split; auto.
-  - rewrite O1, map_map. apply map_ext. intros g. apply gfaces_resolved.
-  - rewrite O2, !map_map. apply map_ext. intros g. now rewrite gfaces_written, gfaces_resolved.
-Qed.
+Proof. exact load_save_load_full. Qed.
 Print Assumptions obj_load_save_load_files.
 
 (* a library that does not exist is a declared error (nothing is returned, nothing can be lost silently) *)
